@@ -147,17 +147,18 @@ theorem node_cmtd {b : Sys N} (r : Reach b) (i : Fin N) : Cmtd b (b.nodes i).log
 
 /-! ### the invariant of the dynamic-configuration protocol -/
 
+/-- what the invariant says about one node: its state `nd`, its applied index `ap`, its `pendingConfIndex` `pd` -/
+structure NodeOK (b : Sys N) (nd : NodeSt N) (ap pd : Nat) : Prop where
+  app_le : ap ≤ nd.commit
+  one    : cnt nd.log nd.commit nd.log.length ≤ 1
+  pendok : nd.role = .leader → ∀ c, c ≤ nd.log.length → confAt nd.log c = true → c ≤ pd
+  cand   : nd.role = .candidate → cnt nd.log ap nd.commit = 0 ∧ Cmtd b nd.log nd.commit nd.term
+  ldr    : nd.role = .leader → cnt nd.log ap nd.log.length ≤ 1
+
 structure CInv (c0 : RQJ.Config) (s : CSys N) : Prop where
   reach  : Reach s.base
-  app_le : ∀ i, s.applied i ≤ (s.base.nodes i).commit
-  one    : ∀ i, cnt (s.base.nodes i).log (s.base.nodes i).commit (s.base.nodes i).log.length ≤ 1
+  node   : ∀ i, NodeOK s.base (s.base.nodes i) (s.applied i) (s.pend i)
   aeone  : ∀ t src prev pt ents cm, s.base.msgs (.ae t src prev pt ents cm) → cnt (s.base.llog t) cm (prev + ents.length) ≤ 1
-  pendok : ∀ i, (s.base.nodes i).role = .leader → ∀ c, c ≤ (s.base.nodes i).log.length →
-             confAt (s.base.nodes i).log c = true → c ≤ s.pend i
-  cand   : ∀ i, (s.base.nodes i).role = .candidate →
-             cnt (s.base.nodes i).log (s.applied i) (s.base.nodes i).commit = 0 ∧
-             Cmtd s.base (s.base.nodes i).log (s.base.nodes i).commit (s.base.nodes i).term
-  ldr    : ∀ i, (s.base.nodes i).role = .leader → cnt (s.base.nodes i).log (s.applied i) (s.base.nodes i).log.length ≤ 1
   el     : ∀ t c, s.base.isLdr t c → IsQuorumC (cfgAt c0 (s.base.clog t c) (s.eapp t)) (s.base.equo t) ∧
              cnt (s.base.clog t c) (s.eapp t) (s.base.clog t c).length ≤ 1 ∧ Cmtd s.base (s.base.clog t c) (s.eapp t) t
   cq     : ∀ k t a, s.capp k t a → s.base.cmt k t ∧ a < k ∧
@@ -166,6 +167,16 @@ structure CInv (c0 : RQJ.Config) (s : CSys N) : Prop where
   cqex   : ∀ k t, s.base.cmt k t → ∃ a, s.capp k t a
   fc     : ∀ k t c, s.base.cmt k t → c ≤ k → confAt (s.base.llog t) c = true →
              ∃ k' t' a', s.capp k' t' a' ∧ a' < c ∧ c ≤ k' ∧ t' ≤ t ∧ (s.base.llog t').take c = (s.base.llog t).take c
+
+theorem CInv.app_le {c0 : RQJ.Config} {s : CSys N} (ci : CInv c0 s) (i : Fin N) : s.applied i ≤ (s.base.nodes i).commit :=
+  (ci.node i).app_le
+theorem CInv.one {c0 : RQJ.Config} {s : CSys N} (ci : CInv c0 s) (i : Fin N) :
+    cnt (s.base.nodes i).log (s.base.nodes i).commit (s.base.nodes i).log.length ≤ 1 := (ci.node i).one
+theorem CInv.cand {c0 : RQJ.Config} {s : CSys N} (ci : CInv c0 s) (i : Fin N) (h : (s.base.nodes i).role = .candidate) :
+    cnt (s.base.nodes i).log (s.applied i) (s.base.nodes i).commit = 0 ∧
+    Cmtd s.base (s.base.nodes i).log (s.base.nodes i).commit (s.base.nodes i).term := (ci.node i).cand h
+theorem CInv.ldr {c0 : RQJ.Config} {s : CSys N} (ci : CInv c0 s) (i : Fin N) (h : (s.base.nodes i).role = .leader) :
+    cnt (s.base.nodes i).log (s.applied i) (s.base.nodes i).log.length ≤ 1 := (ci.node i).ldr h
 
 theorem take_take_le (l : Log) {x m : Nat} (h : x ≤ m) : (l.take m).take x = l.take x := by
   rw [List.take_take, Nat.min_eq_left h]
